@@ -113,6 +113,16 @@ CLAIMED = {
         'wrapper resolution are not yet under contract; "*iterable after keyword" is left unspecified.',
         'contract-based deductive verification (PyVC symbolic-bounded VCs over concrete-length lists, z3/cvc5)',
         'DESIGN.md 6/C11'),
+    'C03': (
+        'Deductive per-clause contracts of the LEGB mechanism: get_parent_scope proved (symbolic-bounded over '
+        'ancestor chains <= 3) to return the nearest scope whose body contains the name, header names going to the '
+        'outer scope except the parameter name; is_scope; the position cut (strictly before, all when None); '
+        'attribute targets never local; global-statement names; visit order latest-first, drop unreachable, stop at '
+        'the first reachable; get_global_filters = innermost first, builtins last, position reset after the first '
+        'function/module context (chains <= 3); Status algebra lemmas.',
+        'Trusted: parso tree shapes as stated preconditions, reachability_check abstract, sorted/filter models; the '
+        'end-to-end agreement of goto with the interpreter for whole programs is not decided (composition).',
+        'contract-based deductive verification (PyVC, symbolic-bounded chains) + z3 lemmas', 'DESIGN.md 6/C03'),
 }
 
 NOT_APPLICABLE = {
